@@ -108,15 +108,22 @@ def applyRequests (d : Doc) (rs : List Request) : Doc := rs.foldl applyRequest d
 
 /-! ### The CLI loop (cli/main.py `write`, `--changes`): no tri-state dispatch, no normalisation -/
 
-/-- a request value stored without normalisation: scalars are the same Python objects, containers stay
-raw `list` / `dict` objects (which `emit_value` later prints with `str()`). -/
+mutual
+/-- a request value stored without normalisation: scalars are the same Python objects; a `dict` stays a
+raw Python dict (the same kind of object as the parser's nested META level, so `emit_meta` prints it as
+a nested block and `emit_value` with `str()`); a `list` stays a raw Python list (printed with `str()`). -/
 def rawVal : JVal → Val
   | .null => .null
   | .bool b => .bool b
   | .int i => .int i
   | .str s => .str s
   | .opaque t => .opaque t
-  | j => .py j
+  | .list items => .py (.list items)
+  | .obj pairs => .dict (rawPairs pairs)
+def rawPairs : List (Str × JVal) → List (Str × Val)
+  | [] => []
+  | (k, v) :: ps => (k, rawVal v) :: rawPairs ps
+end
 
 def cliSetTop (k : Str) (v : JVal) (ns : List Node) : List Node := setTop k (rawVal v) ns
 
@@ -125,7 +132,7 @@ def cliChange (d : Doc) (c : Str × JVal) : Doc :=
   | .metaField f => { d with «meta» := dictSet d.«meta» f (rawVal c.2) }
   | .metaWhole =>
     match c.2 with
-    | .obj pairs => { d with «meta» := pairs.map (fun p => (p.1, rawVal p.2)) }    -- `doc.meta = value.copy()`
+    | .obj pairs => { d with «meta» := rawPairs pairs }    -- `doc.meta = value.copy()`
     | v => { d with nodes := cliSetTop c.1 v d.nodes }
   | .top => { d with nodes := cliSetTop c.1 c.2 d.nodes }
 
